@@ -225,10 +225,11 @@ def _worker(hists):
 
 
 def replay_behaviours(ctx, prop, quick):
-    histlen = 16 if quick else 24
+    histlen = 16 if quick else 20
     want = 2000 if quick else 30000
-    res = tlc.run(ctx, "WorkQSim", sim_cfg(prop, histlen), name="sim_replay", simulate=max(10, want // ctx.ncpu),
-                  depth=histlen + 1, workers=ctx.ncpu, timeout=1200)
+    res = tlc.run(ctx, "WorkQSim", sim_cfg(prop, histlen), name="sim_replay", simulate=max(2, want // 200),   # TLC emits roughly 240 behaviours per unit of num here
+                 
+                  depth=histlen + 1, workers=ctx.ncpu, timeout=2400, heap="20g")
     if not res.ok:
         ctx.machinery("simulation for replay failed: %s %s\n%s" % (res.kind, res.name, res.out[-1500:]))
     hists = res.emitted[:want]
